@@ -25,6 +25,16 @@ def pool_batch(acc, batch, prop=None, bound=1):
                               msg=f"{what}: scenario cores={sc['cores']} tasks={[(t['deps'], t.get('time_limit')) for t in sc['tasks']]} ops={sc['ops'] or sc.get('mseq')} trace={ex.trace}: {json.dumps(detail, default=str)[:300]}")
 
         poolx.explore(sc, scratch, bound, stats, on_exec)
+        if stats.get("divergences"):
+            # The code under test is not a function of the schedule (it depends e.g. on the iteration order of a set of Task objects,
+            # i.e. on object addresses). The explorer cannot own that; as a fallback the scenario is explored a few more times under
+            # shifted heap layouts so that other orders get a chance to show. This part is sampling and is reported as such.
+            ballast = []
+            for rep in range(6):
+                ballast.append([object() for _ in range(997 * (rep + 1))])
+                st2 = dict(executions=0, choice_points=0, pruned=0, transitions=0, states=set())
+                poolx.explore(sc, scratch, bound, st2, on_exec)
+                acc.extra["resampled_executions_after_divergence"] += st2["executions"]
         acc.extra["executions"] += stats["executions"]
         acc.extra["choice_points"] += stats["choice_points"]
         acc.extra["transitions"] += stats["choice_points"]
